@@ -804,6 +804,19 @@ def step_case(kind, step):
         o['covariance_norm'] = step['norm']
     if kind == 'gmm' and step.get('ctype'):
         o['covariance_type'] = step['ctype']
+    if kind == 'cacgmm' and step.get('mask'):
+        # source activity mask: every frame keeps an active class, every class
+        # is active somewhere
+        m = rng.uniform(size=(*lead, K, N)) > 0.3
+        m[..., 0, :] |= ~m.any(axis=-2)
+        m[..., :, 0] = True
+        o['source_activity_mask'] = m
+    if kind == 'cacgmm' and step.get('aff_eps'):
+        o['affiliation_eps'] = step['aff_eps']
+    if kind == 'cacgmm' and step.get('floor') is not None:
+        o['eigenvalue_floor'] = step['floor']
+    if kind == 'cacgmm' and step.get('hermitize') is False:
+        o['hermitize'] = False
     if step.get('aligner') and kind in mm.COMPLEX_KINDS and lead and lead[0] % 2 == 1:
         import pb_bss.permutation_alignment as pa
         o['inline_permutation_aligner'] = pa.GreedyPermutationAlignment('cos')
@@ -973,14 +986,21 @@ def _machine_task(kind, seed_value, n_examples, tier):
 
         @precondition(lambda self: kind == 'cacgmm')
         @rule(seed=st.integers(0, 10 ** 6), D=st.integers(2, 4), K=st.integers(2, 3),
-              parts=st.lists(st.integers(1, 7), min_size=1, max_size=5).filter(
+              parts=st.lists(st.integers(1, 7), min_size=2, max_size=5).filter(
                   lambda p: sum(p) <= 20),
               aligner=st.booleans(), reuse=st.booleans(), saliency=st.booleans(),
-              norm=st.sampled_from([None, 'trace', False]))
-        def split_fit(self, seed, D, K, parts, aligner, reuse, saliency, norm):
+              norm=st.sampled_from([None, 'trace', False]), mask=st.booleans(),
+              aff_eps=st.sampled_from([0, 0, 1e-6]), wca=st.sampled_from([None, [-1], -1]),
+              floor=st.sampled_from([None, None, 1e-3, 0.1]),
+              hermitize=st.sampled_from([True, True, False]),
+              F=st.sampled_from([None, None, 1, 2]))
+        def split_fit(self, seed, D, K, parts, aligner, reuse, saliency, norm, mask,
+                      aff_eps, wca, floor, hermitize, F):
             step = dict(op='split_fit', seed=seed, D=D, K=K, N=4 * K * D, parts=parts,
-                        iterations=1, saliency=saliency, wca=None, norm=norm, ctype=None,
-                        F=3 if aligner else None, aligner=aligner, reuse=reuse)
+                        iterations=1, saliency=saliency, wca=wca, norm=norm, ctype=None,
+                        F=3 if aligner else F, aligner=aligner, reuse=reuse,
+                        mask=mask and not aligner, aff_eps=aff_eps, floor=floor,
+                        hermitize=hermitize)
             self.h.apply(step)
             lab(f'split_into_{min(len(parts), 4)}')
 
@@ -1034,7 +1054,7 @@ def _make_machine(kind, quick, thorough):
     return sc
 
 
-for _kind, _q, _t in (('cacgmm', 30, 500), ('cwmm', 20, 350), ('cbmm', 6, 60),
+for _kind, _q, _t in (('cacgmm', 60, 800), ('cwmm', 20, 350), ('cbmm', 6, 60),
                       ('gmm', 20, 350), ('vmfmm', 20, 350), ('gcacgmm', 14, 250),
                       ('vmfcacgmm', 14, 250), ('watson', 20, 350), ('bingham', 6, 60)):
     _make_machine(_kind, _q, _t)
@@ -1064,14 +1084,56 @@ def split_fit_exhaustive(d, ctx):
     parts = [p + 1 for p in d.ints(n_parts, 5)]
     aligner = d.bool()
     seed = d.seed()
+    # the enumeration fixes the choices above; the options below are derived
+    # from the seed so that the enumerated splits also meet masks / clipping
+    opt = np.random.default_rng(seed).integers(0, 4)
     step = dict(op='split_fit', seed=seed, D=3, K=2, N=24, parts=parts, iterations=1,
-                saliency=False, wca=None, norm=None, ctype=None,
-                F=3 if aligner else None, aligner=aligner, reuse=False)
-    ctx.describe(parts=parts, aligner=aligner)
+                saliency=bool(opt == 1), wca=None, norm=None, ctype=None,
+                F=3 if aligner else None, aligner=aligner, reuse=False,
+                mask=bool(opt == 2 and not aligner), aff_eps=1e-6 if opt == 3 else 0)
+    ctx.describe(parts=parts, aligner=aligner, option=int(opt))
     h = History('cacgmm', {})
     h.apply(step)
     ctx.nontrivial(len(parts) >= 2)
     ctx.label(f'n={sum(parts)}', f'parts={len(parts)}')
+
+
+@subcheck(SUBCHECKS, 'split_fit_generated', quick=300, thorough=5000)
+def split_fit_generated(d, ctx):
+    """the split law over the full option space of the shared cACGMM
+    generator (tying, masks, saliency, clipping, floors, norms, aligners,
+    degenerate data, random start)"""
+    case = mm.draw_case(d, ['cacgmm'], degenerate=True, max_N=30, max_K=3,
+                        max_iterations=1)
+    n_parts = d.int(1, 4)
+    parts = [1 + p for p in d.ints(n_parts, 3)]
+    n = sum(parts)
+    ctx.describe(parts=parts, **case.describe())
+    ctx.label(f'parts={n_parts}', 'aligner' if case.opts.get(
+        'inline_permutation_aligner') is not None else 'no-aligner',
+        'mask' if case.opts.get('source_activity_mask') is not None else 'no-mask')
+    try:
+        single = mm.fit(case, iterations=n)
+    except Exception as e:  # noqa
+        raise Rejected(f'{type(e).__name__}: {str(e)[:60]}')
+    model = None
+    for p in parts:
+        try:
+            model = mm.fit(case, iterations=p, init=model)
+        except Exception as e:  # noqa
+            raise Violation('continued-fit-raises-where-single-fit-does-not',
+                            f'parts={parts}: {type(e).__name__}: {str(e)[:120]}')
+    a, b = mm.params(single, case), mm.params(model, case)
+    for key in a:
+        fin = np.isfinite(a[key]).all() and np.isfinite(b[key]).all()
+        if not fin:
+            raise Borderline('non-finite parameters (C01/C09 judge those)')
+        if not (a[key].shape == b[key].shape and
+                np.allclose(a[key], b[key], rtol=1e-10, atol=1e-12)):
+            raise Violation('split-fit-differs-from-single-fit',
+                            f'n={n} parts={parts} {key}: max diff '
+                            f'{np.max(np.abs(a[key] - b[key])):.3e}', kind='cacgmm')
+    ctx.nontrivial(n_parts >= 2)
 
 
 @subcheck(SUBCHECKS, 'fresh_process_agreement', quick=16, thorough=160,
